@@ -205,6 +205,8 @@ pub enum Ctor {
     Empty,
     /// Response::new with a reader that hands out the body in `pieces`
     New,
+    /// Response::from_file on a real temporary file holding the body
+    FromFile,
 }
 
 #[derive(Clone, Debug, Serialize, Deserialize, PartialEq)]
